@@ -6,7 +6,7 @@
    correspondence (each order is run on gfapy and on the model and compared step by step) and by the oracle (all
    permutations of <= 6 lines / 30 shuffles must give one canonical observation). *)
 From Coq Require Import List String Ascii ZArith Bool.
-From GfaV Require Import Base.Py Model.Codec Model.Line Model.Graph Proofs.GraphP Proofs.FrameP Proofs.RealsP Corr.Graphc.
+From GfaV Require Import Base.Py Model.Codec Model.Line Model.Graph Proofs.GraphP Proofs.FrameP Proofs.RealsP Proofs.OrdersBackrefsP Corr.Graphc.
 Import ListNotations.
 Open Scope string_scope.
 
@@ -53,6 +53,25 @@ Theorem C03_orders_hold_the_same_records : forall ls ls' s1 s2 v vl,
   Permutation.Permutation (map body (reals s1)) (map body (reals s2)).
 Proof. exact orders_same_records. Qed.
 Print Assumptions C03_orders_hold_the_same_records.
+
+(* the same back-reference sets and the same reference targets in every order: back-references and resolution are
+   functions of the records, so two orders that leave no placeholder have, for every identifier and collection, the same
+   back-references (as a multiset of records) and resolve the same mentions *)
+Theorem C03_orders_hold_the_same_back_references : forall ls ls' s1 s2 v vl,
+  Permutation.Permutation ls ls' ->
+  guards_all (init_gfa v vl) ls -> guards_all (init_gfa v vl) ls' ->
+  connect_all (init_gfa v vl) ls = Ok s1 -> connect_all (init_gfa v vl) ls' = Ok s2 ->
+  no_placeholder s1 -> no_placeholder s2 ->
+  forall n c, Permutation.Permutation (map body (backrefs s1 n c)) (map body (backrefs s2 n c)).
+Proof. exact orders_same_backrefs. Qed.
+Print Assumptions C03_orders_hold_the_same_back_references.
+
+Theorem C03_same_records_resolve_the_same_mentions : forall s1 s2,
+  no_placeholder s1 -> no_placeholder s2 ->
+  Permutation.Permutation (map body (reals s1)) (map body (reals s2)) ->
+  forall m, rl (lines s1) m -> rl (lines s2) m.
+Proof. exact same_records_same_targets. Qed.
+Print Assumptions C03_same_records_resolve_the_same_mentions.
 
 (* non-vacuity: a document with a link and a path read before their segments, in document order and reversed; the guards
    hold along both runs, both end in a state, no placeholder is left, and the records are the four lines *)
